@@ -14,6 +14,8 @@ impl GenerationPass for EliminateDeadCodeDirectionsPass {
         let nodes = cfg.nodes();
         let mut changed = true;
         while changed {
+            #[cfg(riscv_analysis_verif)]
+            crate::verif::tick("dead-code-sweep");
             changed = false;
             let old = nodes.clone();
             for node in nodes {
